@@ -19,6 +19,9 @@ def mixed_scalar_templates():
     E, T, V, times = U.E, U.T, U.V, U.times
     return [("S6", E("Z", ["m"], times(V("a"), T("A", "m")), times(T("B", "m")))),
             ("S7", E("Z", ["m"], times(V("a"), T("A", "m")), times(T("B", "m")), times(V("c"), T("C", "m")))),
+            # take() selecting its SCALAR operand, inside a sum: the update adds the scalar wherever the other term is present,
+            # whether or not the take()'s tensors intersect there (genuine defect F19, known finding)
+            ("T6", E("Z", ["m"], U.take(T("A", "m"), V("a"), T("B", "m"), sel=1), times(T("C", "m")))),
             ("S8", E("Z", ["m"], times(V("a"), T("A", "k", "m"), T("B", "k", "m")), times(T("C", "k", "m"))))]
 
 
